@@ -70,7 +70,7 @@ func c18halBoot(cmdLine string) (keep []uint64) {
 // ---------------------------------------------------------------- screens
 
 type c18halScreen interface {
-	dev() console.Device
+	dev() device.Driver
 	// configured is called once hal has configured the console (font / logo)
 	configured()
 	header(out *verifWriter)
@@ -96,7 +96,7 @@ func c18halNewText(cols, rows uint32, salt uint32) *c18halText {
 	t.cons = console.VerifTextConsole(cols, rows, t.host[guard:guard+n:guard+n])
 	return t
 }
-func (t *c18halText) dev() console.Device { return t.cons }
+func (t *c18halText) dev() device.Driver { return t.cons }
 func (t *c18halText) configured()        {}
 func (t *c18halText) header(out *verifWriter) {
 	fg, bg := t.cons.DefaultColors()
@@ -174,7 +174,7 @@ func c18halNewVesa(s c18halVesaSpec) *c18halVesa {
 	v.cons = console.VerifVesaConsole(s.width, s.height, s.bpp, v.pitch, &ci, v.host[v.guard:v.guard+n:v.guard+n], 0, nil)
 	return v
 }
-func (v *c18halVesa) dev() console.Device { return v.cons }
+func (v *c18halVesa) dev() device.Driver { return v.cons }
 func (v *c18halVesa) configured() {
 	var fbLen uint32
 	v.bytesPP, fbLen, v.offsetY, v.f, _, _, _ = console.VerifC19VesaState(v.cons)
